@@ -20,6 +20,7 @@ from copy import deepcopy
 from concurrent.futures import ProcessPoolExecutor
 
 import numpy as np
+from scipy.constants import mu_0
 
 try:
     import tqdm
@@ -229,15 +230,37 @@ def layered(inp):
     method = lopts.pop('method')
     lopts['return_imat'] = True
 
+    # Source coordinates, as point (x, y, z, azm, dip) or as bipole
+    # (x1, x2, y1, y2, z1, z2).
+    coords = np.asarray(src.coordinates, dtype=float)
+    if coords.ndim == 2:  # [[x1, y1, z1], [x2, y2, z2]]
+        coords = coords.ravel('F')
+
+    # Source moment. empymod applies the strength only if it is > 0, and does
+    # not know the length of a dipole in point format; the responses are
+    # therefore computed for a unit source (strength=0: 1 A, 1 m) and then
+    # multiplied by the moment (strength times length).
+    if 'Point' in src.__class__.__name__:
+        moment = src.strength
+    elif coords.size == 5:
+        moment = src.strength*src.length
+    else:
+        moment = src.strength*np.linalg.norm(coords[1::2]-coords[::2])
+
+    # A magnetic dipole is a loop of electric current: i omega mu * I * A.
+    if src.xtype != 'electric' and 'Point' not in src.__class__.__name__:
+        sval = np.where(frequencies < 0, -frequencies, 2j*np.pi*frequencies)
+        moment = moment*sval*mu_0
+
     # Collect rec-independent empymod options.
     empymod_opts = {
         # User input ({src;rec}pts, {h;f}t, {h;f}targ, xdirect, loop, verb).
         **empymod_opts,
         #
         # Source properties, same for all receivers.
-        'src': src.coordinates,
+        'src': coords,
         'msrc': src.xtype != 'electric',
-        'strength': src.strength,
+        'strength': 0,
         #
         # Enforced properties (not implemented).
         'signal': None,
@@ -292,6 +315,7 @@ def layered(inp):
             'mrec': rec.xtype != 'electric',
             'depth': oned.grid.nodes_z[1:-1],
             'freqtime': freqs,
+            'moment': moment[fi] if np.ndim(moment) else moment,
             'epermH': None if not epsilon_r else oned.epsilon_r[0, 0, :],
             'mpermH': None if not mu_r else oned.mu_r[0, 0, :],
         }
@@ -350,7 +374,9 @@ def _empymod_fwd(cond_h, cond_v, empymod_inp):
     """
     from empymod import bipole
     aniso = None if cond_v is None else np.sqrt(cond_h/cond_v)
-    return bipole(res=1/cond_h, aniso=aniso, **empymod_inp)
+    inp = dict(empymod_inp)
+    moment = inp.pop('moment', 1.0)  # Source moment, see `layered`.
+    return moment*bipole(res=1/cond_h, aniso=aniso, **inp)
 
 
 def _get_points(method, src, rec):
